@@ -273,7 +273,7 @@ func (b *Builder) MayMutateOperand(c *ssa.CallCommon, i int) bool {
 	if f == nil {
 		return true // dynamic call: unknown
 	}
-	if InRepo(f) && f.Blocks != nil {
+	if (InRepo(f) || analysedDep(f)) && f.Blocks != nil {
 		return b.repoMut(f)[i]
 	}
 	if f.Signature.Recv() != nil && i == 0 {
@@ -286,6 +286,11 @@ func (b *Builder) MayMutateOperand(c *ssa.CallCommon, i int) bool {
 		return false
 	}
 	return false // library functions read their arguments unless tabled above
+}
+
+// analysedDep: dependencies whose bodies are summarised like repository code (read-only).
+func analysedDep(f *ssa.Function) bool {
+	return f.Pkg != nil && strings.HasPrefix(f.Pkg.Pkg.Path(), "github.com/iotaledger/iota.go/")
 }
 
 // repoMut computes which parameters a repository function may write through.
@@ -937,7 +942,7 @@ func (b *Builder) selfCall(ci ssa.CallInstruction, root ssa.Value, depth int) *T
 	for _, a := range c.Args {
 		args = append(args, arg(a))
 	}
-	return &Term{Op: "call", Name: CalleeName(c), Args: args}
+	return &Term{Op: "call", Name: CalleeName(c), Args: args, V: ci.Value()}
 }
 
 // InstrDominates reports whether a is executed before b on every path to b.
